@@ -228,6 +228,11 @@ impl ContinuousCDF<f64, f64> for StudentsT {
     fn inverse_cdf(&self, x: f64) -> f64 {
         // first calculate inverse_cdf for normal Student's T
         assert!((0.0..=1.0).contains(&x));
+        if self.freedom.is_infinite() {
+            // the limiting normal law, as in `cdf` and `sf`; `inv_beta_reg(inf, ..)` does not terminate
+            return self.location
+                - self.scale * f64::consts::SQRT_2 * crate::function::erf::erfc_inv(2.0 * x);
+        }
         let x1 = if x >= 0.5 { 1.0 - x } else { x };
         let a = 0.5 * self.freedom;
         let b = 0.5;
